@@ -56,6 +56,13 @@ Fixpoint iter_prices (tp : tick_params) (l : list tick) : option (list (Z * Z)) 
 Definition floorQ (x : Q) : Z := (Qnum x / Zpos (Qden x))%Z.
 Definition ceilQ (x : Q) : Z := (- ((- Qnum x) / Zpos (Qden x)))%Z.
 
+(* the liquidity the exact curve has at the pool's cursor: the sum over the OPEN POSITIONS whose range
+   contains the current tick - not the pool's cached active liquidity, which is itself part of what
+   the properties are about (C04) *)
+Definition positions_liq_at (s : amm) : Z :=
+  let t := p_tick (a_pool s) in
+  fold_right (fun p acc => if ((pos_lower p <=? t) && (t <? pos_upper p))%Z then (pos_liq p + acc)%Z else acc) 0%Z (a_positions s).
+
 (* exact output (as a rational) of an exact-input swap of [amount] on state s, fee applied exactly *)
 Definition exact_out_given_in (s : amm) (denom_in amount : Z) : option (Q * Q) :=
   let p := a_pool s in
@@ -64,7 +71,7 @@ Definition exact_out_given_in (s : amm) (denom_in amount : Z) : option (Q * Q) :
   | None => None
   | Some it =>
     let x := qnorm ((amount # 1) * (1 - qdec (p_fee p))) in
-    let '(out, rem, _) := ex_in_loop b4q it x (qdec (p_sqrt p)) (qdec (p_liq p)) 0 in
+    let '(out, rem, _) := ex_in_loop b4q it x (qdec (p_sqrt p)) (qdec (positions_liq_at s)) 0 in
     Some (out, rem)
   end.
 
@@ -75,7 +82,7 @@ Definition exact_in_given_out (s : amm) (denom_in amount_out : Z) : option (Q * 
   match iter_prices (p_tp p) (iter_ticks b4q (a_ticks s) (p_tick p)) with
   | None => None
   | Some it =>
-    let '(inp, rem, _) := ex_out_loop b4q it (amount_out # 1) (qdec (p_sqrt p)) (qdec (p_liq p)) 0 in
+    let '(inp, rem, _) := ex_out_loop b4q it (amount_out # 1) (qdec (p_sqrt p)) (qdec (positions_liq_at s)) 0 in
     (* gross input including the fee: inp / (1 - fee) *)
     Some (qnorm (inp / (1 - qdec (p_fee p))), rem)
   end.
